@@ -59,7 +59,7 @@ Step ==
     [] e = "AssignExpr" -> AssignExpr(Ev.t, Ev.w, Ev.op, Ev.a, Ev.b, Ev.arv, Ev.brv, Ev.c, Ev.fail)
     [] e = "Probe" -> Probe(Ev.t, Ev.op)
     [] e = "BinaryRead" -> BinaryRead(Ev.op, Ev.a, Ev.b)
-    [] e = "Factory" -> Factory(Ev.t, Ev.op, Ev.d, Ev.c)
+    [] e = "Factory" -> FactoryF(Ev.t, Ev.op, Ev.d, Ev.c, Ev.fail)
     [] OTHER -> FALSE
 
 \* Reset: the driver has destroyed every vector and emptied the cache (both recorded as ordinary calls);
